@@ -151,9 +151,25 @@ def ref_error():
 
 
 def context_ok():
-    """Right contexts covered by the step lemmas: the rest does not begin with a NON-ASCII word
-    character (DESIGN.md Appendix A: unobservable -- both lexers reject at the next step)."""
-    return z3.Concat(anyre(), markre(), anyre())
+    """Texts covered by the step lemmas: all, except those in which some keyword lexeme at the start of the text
+    is IMMEDIATELY followed by a non-ASCII word character (DESIGN.md Appendix A).  The documentation gives the
+    keyword regexes without saying how a keyword ends; reading "if\u0663" as KW_IF + number, as an identifier, or
+    as an error are all defensible, so the oracle does not take sides there."""
+    if "ctx" in _CACHE:
+        return _CACHE["ctx"]
+    naw = z3.Concat(rx.z3_set(NON_ASCII_WORD), anyre())
+    parts = []
+    for k in all_classes():
+        if not k.guarded:
+            continue
+        R = to_z3(k.rx)
+        parts.append(z3.Concat(to_z3(ins(k.rx)), naw))                       # marker inside / at the end of the keyword
+        parts.append(z3.Concat(R, naw, markre(), anyre()))                   # keyword and the character before the marker
+        parts.append(z3.Concat(R, rx.z3_set(NON_ASCII_WORD), markre(), anyre()))
+    excl = z3.Union(*parts)
+    whole = z3.Concat(anyre(), markre(), anyre())
+    _CACHE["ctx"] = z3.Intersect(whole, z3.Complement(excl))
+    return _CACHE["ctx"]
 
 
 # ---- plain Python reference tokenizer (for replays and oracle self-tests) -------------
@@ -203,7 +219,9 @@ def py_tokenize(text):
                 if best is None or cand < best:
                     best = cand
         if best is None:
-            raise RefLexError(i)
+            e = RefLexError(i)
+            e.tokens = out
+            raise e
         _, _, _, name, kind, s = best
         i += len(s)
         if kind == "trivia":
